@@ -174,9 +174,9 @@ func machineBody(depth int, alphabet []int, stateVariant bool) func() {
 			entries0, cbs0 := int(vsched.Ctr(mEntered)), int(vsched.Ctr(mCbCalls))
 			next0, reset0 := int(vsched.Ctr(mBoNext)), int(vsched.Ctr(mBoReset))
 			// expectation for this letter
-			expEntry := 0     // new entries required
+			expEntry := 0 // new entries required
 			entryEither := false
-			expExit := -1     // error code of the exit of the current instance that must be reported (-1: none)
+			expExit := -1 // error code of the exit of the current instance that must be reported (-1: none)
 			wasRunning := m.st == sRunning
 			startNew := func() {
 				if m.ctx != 0 && m.hasRoutine {
@@ -387,19 +387,19 @@ func init() {
 		Name: "routine-machine", Props: []string{"C14"}, QuickOnly: true, Det: true, Manual: true, NoRace: true, ObsNames: ops,
 		Doc:   "RoutineContainer: every sequence of 5 operations over {SetRoutine(new), SetContext(same|fresh, restart f|t), ClearContext, RestartRoutine, ExitCurrent(nil|E), FireRetryTimers, WaitExited probes} x {no back-off, constant, stop after one interval}; entries, running status, exit callbacks, WaitExited results and back-off calls compared with a reference machine after every operation",
 		Quick: eng.Bounds{PB: 0, Cap: 8000000}, Thorough: eng.Bounds{PB: 0},
-		Body:  machineBody(5, base, false),
+		Body: machineBody(5, base, false),
 	})
 	eng.Register(&eng.Scenario{
 		Name: "routine-machine-deep", Props: []string{"C14"}, ThoroughOnly: true, Det: true, Manual: true, NoRace: true, ObsNames: ops,
 		Doc:   "RoutineContainer: as routine-machine with sequences of 7 operations plus SetRoutine(nil)",
 		Quick: eng.Bounds{PB: 0}, Thorough: eng.Bounds{PB: 0, Cap: 400000000},
-		Body:  machineBody(7, append(append([]int{}, base...), aSetRoutineNil), false),
+		Body: machineBody(7, append(append([]int{}, base...), aSetRoutineNil), false),
 	})
 	stateAlpha := []int{aState1, aState2, aState0, aCtxSameT, aCtxFreshF, aCtxFreshT, aClear, aRestart, aExitNil, aExitErr, aFire, aProbeF}
 	eng.Register(&eng.Scenario{
 		Name: "sroutine-machine", Props: []string{"C14"}, Det: true, Manual: true, NoRace: true, ObsNames: ops,
 		Doc:   "StateRoutineContainer: every sequence of 5 (quick) operations over {SetState(1|2|0), SetContext, ClearContext, RestartRoutine, ExitCurrent(nil|E), FireRetryTimers, WaitExited probe} x back-off configurations against the same reference machine",
 		Quick: eng.Bounds{PB: 0, Cap: 8000000}, Thorough: eng.Bounds{PB: 0, Cap: 8000000},
-		Body:  machineBody(5, stateAlpha, true),
+		Body: machineBody(5, stateAlpha, true),
 	})
 }
